@@ -35,7 +35,9 @@ UNARY = [("list", "list[{}]"), ("set", "set[{}]"), ("Optional", "typing.Optional
          # metadata given as a call with KEYWORD arguments (pydantic / msgspec style): the keywords are rewritten like any sub-expression
          ("AnnKw", "Annotated[int, Meta(1, alias={}, n=1)]"),
          # metadata built with a binary operator other than `|`: its operands are rewritten like any sub-expression
-         ("AnnOp", "Annotated[int, tag & ({}) & list[str]]")]
+         ("AnnOp", "Annotated[int, tag & ({}) & list[str]]"),
+         # an attribute OF a subscript (a nested class of a parameterised generic): the subscript below the dot is rewritten too
+         ("SubAttr", "Box[{}].Item")]
 BINARY = [("bitor", "{} | {}"), ("parbitor", "({}) | ({})"), ("dict", "dict[{}, {}]"), ("tuple", "tuple[{}, {}]"),
           ("Callable", "Callable[[{}], {}]")]
 NU, NB = len(UNARY), len(BINARY)
